@@ -106,32 +106,42 @@ Lemma floodplain_bounds q M bff v A :
   0 <= @floodPlainDepositionEmperical R RArith q M bff v A <= M.
 Proof.
   intros HM Hq Hb Hv HA. unfold floodPlainDepositionEmperical. runfold.
-  rcase_bool (Rltb q bff); cbn [orb]; [lra|].
+  rcase_bool (Rleb q bff); cbn [orb]; [lra|].
   rcase_bool (Reqb bff 0); [lra|].
   assert (Hq0 : 0 < q) by lra.
-  set (Qf := q - bff). assert (HQf : 0 <= Qf) by (unfold Qf; lra).
+  set (Qf := q - bff). assert (HQp : 0 < Qf) by (unfold Qf; lra).
   set (e := IZR (-1) * (v * A / Qf)).
   set (dep := M * (Qf / q) * (1 - exp e)).
   assert (Hdep : 0 <= dep <= M).
-  { destruct (Req_dec Qf 0) as [E0|E0].
-    - unfold dep. rewrite E0. unfold Rdiv. rewrite Rmult_0_l, Rmult_0_r, Rmult_0_l. lra.
-    - assert (HQp : 0 < Qf) by lra.
-      assert (He : e <= 0).
-      { unfold e. assert (0 <= v * A / Qf).
-        { apply Rmult_le_pos; [apply Rmult_le_pos; assumption | left; apply Rinv_0_lt_compat; assumption]. }
-        lra. }
-      assert (Hexp : 0 < exp e <= 1).
-      { split; [apply exp_pos|]. rewrite <- exp_0. destruct He as [He|He]; [left; apply exp_increasing; exact He | rewrite He; lra]. }
-      assert (Hffp : 0 <= Qf / q <= 1).
-      { split; [apply Rmult_le_pos; [assumption | left; apply Rinv_0_lt_compat; assumption]|].
-        apply (Rmult_le_reg_r q); [assumption|]. unfold Rdiv. rewrite Rmult_assoc, Rinv_l by lra. unfold Qf. lra. }
-      unfold dep. split.
-      + apply Rmult_le_pos; [apply Rmult_le_pos; lra | lra].
-      + assert (M * (Qf / q) <= M) by (rewrite <- (Rmult_1_r M) at 2; apply Rmult_le_compat_l; lra).
-        assert (0 <= M * (Qf / q)) by (apply Rmult_le_pos; lra).
-        rewrite <- (Rmult_1_r M) at 2. 
-        apply Rle_trans with (M * (Qf / q) * 1); [apply Rmult_le_compat_l; lra | lra]. }
+  { assert (He : e <= 0).
+    { unfold e. assert (0 <= v * A / Qf).
+      { apply Rmult_le_pos; [apply Rmult_le_pos; assumption | left; apply Rinv_0_lt_compat; assumption]. }
+      lra. }
+    assert (Hexp : 0 < exp e <= 1).
+    { split; [apply exp_pos|]. rewrite <- exp_0. destruct He as [He|He]; [left; apply exp_increasing; exact He | rewrite He; lra]. }
+    assert (Hffp : 0 <= Qf / q <= 1).
+    { split; [apply Rmult_le_pos; [lra | left; apply Rinv_0_lt_compat; assumption]|].
+      apply (Rmult_le_reg_r q); [assumption|]. unfold Rdiv. rewrite Rmult_assoc, Rinv_l by lra. unfold Qf. lra. }
+    unfold dep. split.
+    + apply Rmult_le_pos; [apply Rmult_le_pos; lra | lra].
+    + assert (M * (Qf / q) <= M) by (rewrite <- (Rmult_1_r M) at 2; apply Rmult_le_compat_l; lra).
+      assert (0 <= M * (Qf / q)) by (apply Rmult_le_pos; lra).
+      rewrite <- (Rmult_1_r M) at 2.
+      apply Rle_trans with (M * (Qf / q) * 1); [apply Rmult_le_compat_l; lra | lra]. }
   rcase_bool (Rltb M dep); lra.
+Qed.
+
+(** No division by zero is reached in the floodplain function: at or below bank-full
+    (in particular at outflow = bankFullFlow, where the flood flow Qf is 0) it returns 0
+    before dividing; above bank-full both divisors, Qf and the outflow, are positive. *)
+Lemma floodplain_no_division_by_zero q M bff v A :
+  (q <= bff -> @floodPlainDepositionEmperical R RArith q M bff v A = 0) /\
+  (bff < q -> 0 <= bff -> 0 < q - bff /\ 0 < q).
+Proof.
+  split.
+  - intros H. unfold floodPlainDepositionEmperical. runfold.
+    assert (E : Rleb q bff = true) by (apply Rleb_true; exact H). rewrite E. reflexivity.
+  - intros; lra.
 Qed.
 
 (** net channel deposition: never more than the mass present, and a
@@ -266,46 +276,99 @@ Proof.
   destruct (run _ _ _) as [[c' m'] os]; reflexivity.
 Qed.
 
-(** ** the bankFullFlow <= 1e-8 path loses the reach-local mass *)
+(** ** the bankFullFlow <= 1e-8 path: lumped routing of upstream + lateral + reach-local mass *)
+Notation Rfine_lowbank_step := (@fine_lowbank_step R RArith).
+
+(** what leaves on this path: downstream (rate * dt) and the flush *)
+Definition fine_lowbank_outflow (p : fine_paramsR) (x : fine_inR) (o : lumped_outR) : R :=
+  lo_outflowLoad o * fp_durationInSeconds p + lo_flushed o.
+
+(** per-step balance with the SAME inflow as the main path (upstream + lateral + reach-local) *)
+Lemma fine_lowbank_step_budget p m x :
+  m + fine_inflow p x =
+  fst (Rfine_lowbank_step p m x) + fine_lowbank_outflow p x (snd (Rfine_lowbank_step p m x)).
+Proof.
+  unfold fine_lowbank_step, fine_lowbank_outflow, fine_inflow.
+  pose proof (lumped_step_budget 0 (fp_durationInSeconds p) m (@fine_to_lumped R RArith x)) as H.
+  unfold lumped_inflow, lumped_outflow, fine_to_lumped in H. runfold. cbn [li_inflowLoad li_lateralLoad] in H.
+  unfold fine_to_lumped. runfold. lra.
+Qed.
+
+Lemma fine_lowbank_step_flush p m x :
+  lo_flushed (snd (Rfine_lowbank_step p m x)) <> 0 ->
+  fi_outflow x * fp_durationInSeconds p + fi_reachVolume x < 1 / 100.
+Proof.
+  intros H. apply (lumped_step_flush 0 (fp_durationInSeconds p) m (@fine_to_lumped R RArith x)) in H.
+  exact H.
+Qed.
+
+Lemma fine_lowbank_step_nonneg p m x :
+  0 <= fp_durationInSeconds p -> 0 <= m -> fine_in_nonneg x ->
+  0 <= fst (Rfine_lowbank_step p m x) /\
+  0 <= lo_outflowLoad (snd (Rfine_lowbank_step p m x)) /\ 0 <= lo_flushed (snd (Rfine_lowbank_step p m x)).
+Proof.
+  intros Hdt Hm (H1 & H2 & H3 & H4 & H5).
+  unfold fine_lowbank_step.
+  apply (lumped_step_nonneg 0 (fp_durationInSeconds p) m (@fine_to_lumped R RArith x)); try lra; try assumption.
+  unfold lumped_in_nonneg, fine_to_lumped. runfold. cbn. repeat split; lra.
+Qed.
+
+Theorem fine_lowbank_run_budget p : forall xs m,
+  m + inflows (fine_inflow p) xs =
+  fst (run (Rfine_lowbank_step p) m xs) +
+  outflows (fine_lowbank_outflow p) xs (snd (run (Rfine_lowbank_step p) m xs)).
+Proof.
+  apply (run_budget (Rfine_lowbank_step p) (fun m => m) (fine_inflow p) (fine_lowbank_outflow p)).
+  intros m x; apply fine_lowbank_step_budget.
+Qed.
+
+Theorem fine_lowbank_run_nonneg p : 0 <= fp_durationInSeconds p -> forall xs m,
+  0 <= m -> Forall fine_in_nonneg xs ->
+  0 <= fst (run (Rfine_lowbank_step p) m xs) /\
+  Forall (fun xo => 0 <= lo_outflowLoad (snd xo) /\ 0 <= lo_flushed (snd xo))
+         (combine xs (snd (run (Rfine_lowbank_step p) m xs))).
+Proof.
+  intros Hdt.
+  apply (run_invariant (Rfine_lowbank_step p) (fun m => 0 <= m) fine_in_nonneg
+           (fun _ o => 0 <= lo_outflowLoad o /\ 0 <= lo_flushed o)).
+  intros m x Hm Hx. destruct (fine_lowbank_step_nonneg p m x Hdt Hm Hx) as (A & B & C). auto.
+Qed.
+
+Theorem fine_lowbank_run_flush p : forall xs m,
+  Forall (fun xo => lo_flushed (snd xo) <> 0 ->
+                    fi_outflow (fst xo) * fp_durationInSeconds p + fi_reachVolume (fst xo) < 1 / 100)
+         (combine xs (snd (run (Rfine_lowbank_step p) m xs))).
+Proof.
+  intros xs m.
+  apply (run_invariant (Rfine_lowbank_step p) (fun _ => True) (fun _ => True)
+           (fun x o => lo_flushed o <> 0 -> fi_outflow x * fp_durationInSeconds p + fi_reachVolume x < 1 / 100)); auto.
+  - intros m0 x _ _. split; [exact I|]. apply fine_lowbank_step_flush.
+  - clear. induction xs; constructor; auto.
+Qed.
+
+(** the catalogue kernel on that path: the channel store is passed through unchanged *)
 Lemma fine_kernel_unfold_lowbank (bff vf fpa lw ll ls bh pbh sbd mn vs vr dt c m : R) (a b l v q : list R) :
   bff <= 1 / 100000000 ->
   @instream_fine_sediment_kernel R RArith [bff; vf; fpa; lw; ll; ls; bh; pbh; sbd; mn; vs; vr; dt] [c; m] [a; b; l; v; q] =
-  let r := run (Rlumped_step 0 dt) m (lumped_rows a (Some b) q v) in
+  let p := mk_fine_params bff vf fpa lw ll ls bh pbh sbd mn vs vr dt in
+  let r := run (Rfine_lowbank_step p) m (fine_rows a b l v q) in
   Some ([map lo_outflowLoad (snd r); zeros (snd r); zeros (snd r); zeros (snd r); zeros (snd r)], [c; fst r]).
 Proof.
-  intros Hb. unfold instream_fine_sediment_kernel, FS_BANKFULL_EPS, fine_lowbank, lumped_transport. runfold.
+  intros Hb. unfold instream_fine_sediment_kernel, FS_BANKFULL_EPS, fine_lowbank. runfold.
   assert (E : Rleb bff (1 / 100000000) = true) by (apply Rleb_true; exact Hb). rewrite E.
-  cbn [fp_durationInSeconds]. destruct (run _ _ _) as [m' os]; reflexivity.
+  destruct (run _ _ _) as [m' os]; reflexivity.
 Qed.
 
-(** Refutation of the mass balance on that path: with bank-full flow 0, 1 kg/s of
-    reach-local sediment for one day into 1000 m3 with 1 m3/s flowing out enters
-    the reach (86400 kg) and appears nowhere: nothing stored, nothing downstream,
-    nothing deposited, and no flush is permitted (the volume is far above the minimum). *)
-Theorem fine_lowbank_loses_reach_local_refuted :
-  exists (params states : list R) (inputs : list (list R)) outs c' m',
-    nth 0 params 0 <= 1 / 100000000 /\
-    Forall (Forall (fun v => 0 <= v)) inputs /\
-    @instream_fine_sediment_kernel R RArith params states inputs = Some (outs, [c'; m']) /\
-    (* stock before + mass entering (upstream + lateral + reach-local) * dt *)
-    nth 0 states 0 + nth 1 states 0 +
-      (Rsum (nth 0 inputs []) + Rsum (nth 1 inputs []) + Rsum (nth 2 inputs [])) * nth 12 params 0
-    <> (* stock after + downstream*dt + floodplain*dt *)
-    c' + m' + Rsum (nth 0 outs []) * nth 12 params 0 + Rsum (nth 1 outs []) * nth 12 params 0 /\
-    (* and the working volume is above MINIMUM_VOLUME: no flush is permitted *)
-    1 / 100 <= nth 0 (nth 4 inputs []) 0 * nth 12 params 0 + nth 0 (nth 3 inputs []) 0.
+(** the former witness of the lost reach-local mass (bank-full flow 0, 1 kg/s of reach-local
+    sediment for one day, 1000 m3 stored, 1 m3/s out): the 86400 kg are now split by volume *)
+Example fine_lowbank_keeps_reach_local :
+  let p := mk_fine_params 0 0 0 10 1000 (1/1000) 2 (1/2) (3/2) (4/100) (1/1000) (1/1000) 86400 in
+  let r := Rfine_lowbank_step p 0 (mk_fine_in 0 0 1 1000 1) in
+  fst r + lo_outflowLoad (snd r) * 86400 = 86400 /\ lo_flushed (snd r) = 0 /\ 0 < fst r.
 Proof.
-  exists [0; 0; 0; 10; 1000; 1/1000; 2; 1/2; 3/2; 4/100; 1/1000; 1/1000; 86400], [0; 0],
-         [[0]; [0]; [1]; [1000]; [1]].
-  eexists _, _, _. split; [cbn; lra|]. split; [repeat constructor; lra|].
-  split.
-  - rewrite fine_kernel_unfold_lowbank by lra.
-    unfold lumped_rows, zip4, zip3. cbn [map combine run].
-    unfold lumped_step. runfold. cbn [li_inflowLoad li_lateralLoad li_outflow li_storage].
-    assert (E : Rltb (1 * 86400 + 1000) (@MINIMUM_VOLUME R RArith) = false).
-    { apply Rltb_false. rewrite MINIMUM_VOLUME_R. lra. }
-    rewrite E. cbn. reflexivity.
-  - cbn. split; lra.
+  cbn zeta. unfold fine_lowbank_step, fine_to_lumped, lumped_step. runfold. cbn.
+  assert (E : Rltb (1 * 86400 + 1000) (1 / 100) = false) by (apply Rltb_false; lra).
+  rewrite E. cbn. repeat split; try lra; field_simplify; lra.
 Qed.
 
 (** ** non-vacuity of the main path *)
@@ -330,12 +393,9 @@ Proof.
 Qed.
 
 (** below bank-full there is no floodplain deposition *)
-Lemma floodplain_zero_below_bankfull q M bff v A : q < bff ->
+Lemma floodplain_zero_below_bankfull q M bff v A : q <= bff ->
   @floodPlainDepositionEmperical R RArith q M bff v A = 0.
-Proof.
-  intros H. unfold floodPlainDepositionEmperical. runfold.
-  assert (E : Rltb q bff = true) by (apply Rltb_true; exact H). rewrite E. reflexivity.
-Qed.
+Proof. intros H. apply (proj1 (floodplain_no_division_by_zero q M bff v A) H). Qed.
 
 (** standing water (no transport capacity): everything deposits, as far as there is room *)
 Lemma inChannel_standing_water TV M c w S n vs vr maxS :
